@@ -6,7 +6,7 @@
     [iso g h] = some map injective on the nodes of g relabels g into h up to [geq]. *)
 From Coq Require Import List NArith ZArith Bool Arith Permutation.
 From SK Require Import lib.IRSortKeys lib.IRCore lib.IRSearch model.C18_Model proof.C18_Order proof.C18_Spec
-  proof.C18_Graph proof.C18_Canon.
+  proof.C18_Graph proof.C18_Canon proof.C18_Equiv proof.C18_Label proof.C18_Aut proof.C18_Invariant.
 From SK Require lib.IRInst.
 Import ListNotations.
 
@@ -51,3 +51,33 @@ Theorem C18_canon_complete : forall (g1 g2 : vgraph) (l1 p1 l2 p2 : list N),
   geq (canon_graph g1 p1) (canon_graph g2 p2) -> iso g1 g2.
 Proof. exact canon_complete. Qed.
 Print Assumptions C18_canon_complete.
+
+(** The model's signature [sig] (kind, in/out degree, neighbour counts per cell, sorted out-edge attributes) satisfies
+    the hypothesis [sig_rel] of lib/IRCore.v for a view that is renamed by an injective map and presented with another
+    insertion order of nodes / arcs. *)
+Theorem C18_sig_rel : forall (f : N -> N), (forall x y, f x = f y -> x = y) ->
+  forall (g g' : vgraph) (P P' : partition) (v : N),
+  wf g -> geq g' (relabel f g) -> partR f P P' -> sig g' P' (f v) = sig g P v.
+Proof. exact sig_rel. Qed.
+Print Assumptions C18_sig_rel.
+
+(** The leaf enumeration of the renamed / re-ordered view is the renamed leaf enumeration, up to the visiting order. *)
+Theorem C18_leaves_equivariant : forall (f : N -> N), (forall x y, f x = f y -> x = y) ->
+  forall g g' : vgraph, wf g -> geq g' (relabel f g) ->
+  Permutation (map (map f) (leaves IRInst.lexleb (sig g) (S (length (vnodes g))) (S (length (vnodes g))) (init_part g) []))
+              (leaves IRInst.lexleb (sig g') (S (length (vnodes g'))) (S (length (vnodes g'))) (init_part g') []).
+Proof. exact leaves_of_rel. Qed.
+Print Assumptions C18_leaves_equivariant.
+
+(** Clause 2 (invariance): a view [g'] that is [g] with its nodes renamed by an injective map (species renamed,
+    reaction ids regenerated) and its node / arc lists in any other order (reactions re-ordered) receives the same
+    minimal label and the identical canonical graph.  [kinds_ok] / [arcs_ok]: kinds are 'reaction' / 'species', role is
+    None / 'product' / 'reactant', stoich is None or a non-negative integer (the domain on which the label string can be
+    read back). *)
+Theorem C18_canon_invariant : forall (f : N -> N), (forall x y, f x = f y -> x = y) ->
+  forall (g g' : vgraph) (lab p lab' p' : list N),
+  wf g -> kinds_ok g -> arcs_ok g -> geq g' (relabel f g) ->
+  fst (canon_search g) = Some (lab, p) -> fst (canon_search g') = Some (lab', p') ->
+  lab' = lab /\ geq (canon_graph g' p') (canon_graph g p).
+Proof. exact canon_invariant. Qed.
+Print Assumptions C18_canon_invariant.
